@@ -65,6 +65,8 @@ m('benign-scan-blank-first', 'stack/context.go', "\tcase gotFileCreated:\n\t\tif
 m('benign-similar-switch-order', 'stack/stack.go', "\t\tif a.IsOffsetTooLarge != r.IsOffsetTooLarge {\n\t\t\treturn false\n\t\t}\n\t\tif a.IsPtr != r.IsPtr {\n\t\t\treturn false\n\t\t}\n\t\treturn a.IsPtr || a.Value == r.Value", "\t\tif a.IsPtr != r.IsPtr {\n\t\t\treturn false\n\t\t}\n\t\tif a.IsOffsetTooLarge != r.IsOffsetTooLarge {\n\t\t\treturn false\n\t\t}\n\t\treturn r.IsPtr || r.Value == a.Value", 'C05 C06', '', kind='benign', note='tests reordered and operands swapped')
 m('benign-readslice-var', 'stack/reader.go', "\t\t\tline := r.buf[r.r : r.r+i+1]\n\t\t\tr.r += i + 1\n\t\t\treturn line, nil", "\t\t\tend := r.r + i + 1\n\t\t\tline := r.buf[r.r:end]\n\t\t\tr.r = end\n\t\t\treturn line, nil", 'C09 C02', '', kind='benign', note='same cursor arithmetic through a local')
 
+m('ht-repo-unescaped-d16', 'stack/html.go', 'escape(parts[0]), escape(p), srcTag, escape(parts[2]), c.Line)', 'escape(parts[0]), p, srcTag, escape(parts[2]), c.Line)', 'C17', 'HT-escape', note='reintroduces D16')
+
 # --- RB (relational bounds of the reader)
 m('rb-advance-plus2', 'stack/reader.go', "\t\t\tr.r += i + 1\n", "\t\t\tr.r += i + 2\n", 'C09', 'RB-slice', note='read cursor can pass the write cursor')
 m('rb-s-is-w', 'stack/reader.go', "\t\ts = r.w - r.r\n", "\t\ts = r.w\n", 'C09', 'RB-slice', note='search offset not relative to the read cursor: r+s can pass w after a slide')
